@@ -42,6 +42,7 @@ func (e *Env) Sleep(d time.Duration) {
 }
 
 type detResult struct {
+	Mutated string // non-empty: a delivered batch was altered by the engine after its delivery
 	Batches []Batch
 	AtOps   []int // number of harness operations completed when each batch was delivered
 	AtNs    []int64 // virtual time of each delivery
@@ -87,7 +88,18 @@ func detExec(sql string, o detOpts, script func(e *Env)) detResult {
 			}
 		}
 		e := &Env{S: s, Eager: o.Eager}
+		var rawRefs [][]map[string]any
+		defer func() {
+			// a batch handed to the sink must still read the same when the run is over
+			for i, ref := range rawRefs {
+				if i < len(r.Batches) && js(ref) != js(r.Batches[i]) {
+					r.Mutated = fmt.Sprintf("batch %d was delivered as %s and later reads %s", i+1, js(r.Batches[i]), js(ref))
+					break
+				}
+			}
+		}()
 		s.AddSyncSink(func(rows []map[string]any) {
+			rawRefs = append(rawRefs, rows)
 			r.Batches = append(r.Batches, copyBatch(rows))
 			r.AtOps = append(r.AtOps, e.Ops)
 			r.AtNs = append(r.AtNs, sched.Cur().Elapsed())
